@@ -1130,10 +1130,11 @@ Lemma lstep_ok items st op :
     end.
 Proof.
   intros Hw Ho. pose proof Hw as [Hv Hoff]. unfold valid_index in Hv. pose proof (zlen_nonneg items) as Hn.
-  destruct op as [| | | |hh|hh|its|w h]; simpl;
+  destruct op as [| | | |hh|hh|its|w h]; simpl in Ho |- *;
     try (eexists _, _, _; split; [reflexivity|]; split; [|exact I]; split; [unfold valid_index; simpl; lia|simpl; lia]).
-  - pose proof (zlen_nonneg its). eexists _, _, _; split; [reflexivity|]; split; [|exact I]; split; [unfold valid_index; simpl; lia|simpl; lia].
-  - destruct (l_draw_ok items w h st Hw) as (rows & st' & -> & H1 & _ & H3). eauto.
+  - pose proof (zlen_nonneg its). eexists _, _, _; split; [reflexivity|]; split; [|exact I].
+    split; [unfold valid_index, l_setitems; cbn [l_index l_set_index]; lia|simpl; lia].
+  - destruct (l_draw_ok items w h st Hw) as (rows & st' & -> & H1 & _ & H3). exists items, st', rows. split; [reflexivity|]. split; assumption.
 Qed.
 
 Theorem wl_trace_model_ok : forall ops items st,
@@ -1148,4 +1149,232 @@ Proof.
     destruct (l_draw items w h st) as [[? ?]|]; [injection E as <- _ _; reflexivity|discriminate]. }
   rewrite Hit. rewrite (proj1 Hw'). simpl. rewrite (IH items' st' Hw' Ho').
   destruct op; try reflexivity. rewrite Hd. reflexivity.
+Qed.
+
+(* ====================================================================================== *)
+(* widgets/pager.Model                                                                     *)
+(* ====================================================================================== *)
+
+Definition not_nl (c : pchar) : bool := negb (is_nl c).
+
+Definition wf_chars (cs : list pchar) : Prop := Forall (fun c => 0 <= pc_width c) cs.
+
+Lemma pchar_eqb_refl c : pchar_eqb c c = true.
+Proof.
+  unfold pchar_eqb, zlist_eqb. rewrite Z.eqb_refl, andb_true_r.
+  induction (fst c) as [|x l IH]; simpl; [reflexivity|]. now rewrite Z.eqb_refl.
+Qed.
+
+Lemma list_eqb_refl {A} (e : A -> A -> bool) l : (forall x, e x x = true) -> list_eqb e l l = true.
+Proof. intros He. induction l as [|x l IH]; simpl; [reflexivity|]. now rewrite He. Qed.
+
+Lemma plines_eqb_refl l : plines_eqb l l = true.
+Proof. apply list_eqb_refl. intros x. apply list_eqb_refl. apply pchar_eqb_refl. Qed.
+
+(* pager_complete: the lines, concatenated, are the text without its newline characters
+   (the unterminated last line included) *)
+Lemma layout_go_concat w : forall cs cur col,
+  concat (layout_go w cs cur col) = rev cur ++ filter not_nl cs.
+Proof.
+  induction cs as [|c t IH]; intros cur col.
+  - simpl. destruct cur as [|x cur]; [reflexivity|]. simpl. now rewrite !app_nil_r.
+  - cbn [layout_go filter]. unfold not_nl at 1. destruct (is_nl c) eqn:En; simpl negb; cbv iota.
+    + simpl concat. now rewrite IH.
+    + destruct (w <=? col + pc_width c).
+      * simpl concat. rewrite IH. simpl. now rewrite <- app_assoc.
+      * rewrite IH. simpl. now rewrite <- app_assoc.
+Qed.
+
+Theorem layout_complete w cs : concat (layout w cs) = filter not_nl cs.
+Proof. unfold layout. now rewrite layout_go_concat. Qed.
+
+Lemma layout_go_no_nl w : forall cs cur col,
+  forallb not_nl cur = true ->
+  forallb (fun l => forallb not_nl l) (layout_go w cs cur col) = true.
+Proof.
+  assert (Hrev : forall l, forallb not_nl l = true -> forallb not_nl (rev l) = true).
+  { intros l H. rewrite forallb_forall in *. intros x Hx. apply H. now apply in_rev. }
+  induction cs as [|c t IH]; intros cur col Hc.
+  - simpl. destruct cur as [|x cur]; [reflexivity|]. cbn [forallb]. rewrite (Hrev _ Hc). reflexivity.
+  - cbn [layout_go]. destruct (is_nl c) eqn:En.
+    + cbn [forallb]. rewrite (Hrev _ Hc), IH; reflexivity.
+    + assert (Hc' : forallb not_nl (c :: cur) = true) by (simpl; unfold not_nl at 1; rewrite En; exact Hc).
+      destruct (w <=? col + pc_width c).
+      * cbn [forallb]. rewrite (Hrev _ Hc'), IH; reflexivity.
+      * apply IH. exact Hc'.
+Qed.
+
+Lemma wrap_ok_rev w x cur :
+  0 <= pc_width x -> (line_width cur < w \/ cur = []) -> wrap_ok w (rev (x :: cur)) = true.
+Proof.
+  intros Hx Hc. unfold wrap_ok. rewrite rev_involutive.
+  destruct Hc as [Hc| ->]; [lia|]. apply orb_true_r.
+Qed.
+
+Lemma layout_go_wrap w : forall cs cur col,
+  wf_chars cs -> wf_chars cur -> col = line_width cur -> (line_width cur < w \/ cur = []) ->
+  forallb (wrap_ok w) (layout_go w cs cur col) = true.
+Proof.
+  assert (Hline : forall cur, wf_chars cur -> (line_width cur < w \/ cur = []) -> wrap_ok w (rev cur) = true).
+  { intros cur Hw Hc. destruct cur as [|x cur]; [reflexivity|].
+    pose proof (Forall_inv Hw) as Hx. pose proof (Forall_inv_tail Hw) as Hw'. cbv beta in Hx.
+    apply wrap_ok_rev; [exact Hx|]. destruct Hc as [Hc|Hc]; [|discriminate]. left.
+    simpl in Hc. assert (0 <= line_width cur).
+    { clear - Hw'. induction Hw' as [|y l Hy Hl IH]; simpl; lia. }
+    lia. }
+  induction cs as [|c t IH]; intros cur col Hcs Hcur Hcol Hfit.
+  - simpl. destruct cur as [|x cur]; [reflexivity|]. cbn [forallb]. rewrite Hline; auto.
+  - pose proof (Forall_inv Hcs) as Hc. pose proof (Forall_inv_tail Hcs) as Hcs'. cbv beta in Hc.
+    cbn [layout_go]. destruct (is_nl c).
+    + cbn [forallb]. rewrite Hline by auto. apply IH; [exact Hcs'|constructor|reflexivity|right; reflexivity].
+    + destruct (w <=? col + pc_width c) eqn:Ew.
+      * cbn [forallb]. rewrite wrap_ok_rev by auto. apply IH; [exact Hcs'|constructor|reflexivity|right; reflexivity].
+      * apply IH; [exact Hcs'|constructor; assumption|simpl; unfold pc_width in *; lia|left; simpl; unfold pc_width in *; lia].
+Qed.
+
+Theorem layout_lines_ok w cs : wf_chars cs -> lines_ok w cs (layout w cs) = true.
+Proof.
+  intros Hw. unfold lines_ok. rewrite layout_complete.
+  fold not_nl. rewrite (list_eqb_refl pchar_eqb _ pchar_eqb_refl). simpl.
+  unfold layout. rewrite layout_go_wrap; auto; [|constructor]. simpl.
+  apply (layout_go_no_nl w cs [] 0 eq_refl).
+Qed.
+
+(* pager_offset_clamped *)
+Lemma p_clamp_spec n h off : p_clamp n h off = Z.max 0 (Z.min off (n - h)).
+Proof. unfold p_clamp. destruct (n - off <? h) eqn:E1; destruct (_ <? 0) eqn:E2; lia. Qed.
+
+Lemma p_clamp_range n h off : 0 <= h -> 0 <= n ->
+  0 <= p_clamp n h off <= Z.max 0 (n - h).
+Proof. intros. rewrite p_clamp_spec. lia. Qed.
+
+(* every line can be scrolled into the window *)
+Lemma p_clamp_reach n h j : 1 <= h -> 0 <= j < n -> p_clamp n h j <= j < p_clamp n h j + h.
+Proof. intros. rewrite p_clamp_spec. lia. Qed.
+
+Definition pop_wf (op : pop) : Prop :=
+  match op with PSetText cs => wf_chars cs | _ => True end.
+
+Lemma pager_trace_model_ok' : forall ops cs lines off width fresh,
+  wf_chars cs -> Forall pop_wf ops ->
+  (fresh = true -> lines = layout width cs) ->
+  pager_trace_ok cs fresh off width (p_run (mkP cs lines off width) ops) = true.
+Proof.
+  induction ops as [|op ops IH]; intros cs lines off width fresh Hw Ho Hf; [reflexivity|].
+  pose proof (Forall_inv Ho) as Ho1. pose proof (Forall_inv_tail Ho) as Ho'.
+  assert (Hfr : (if fresh then lines_ok width cs lines else true) = true).
+  { destruct fresh; [|reflexivity]. rewrite (Hf eq_refl). apply layout_lines_ok; exact Hw. }
+  cbn [p_run]. destruct op as [w h| | |k|cs'|]; cbn [pstep].
+  - (* draw *)
+    unfold p_draw. cbn [p_offset p_width p_lines p_chars]. destruct (w =? width) eqn:Ew.
+    + cbn [pager_trace_ok p_offset p_width p_lines p_chars].
+      assert (Hww : width = w) by lia. subst w.
+      replace (fresh || negb (width =? width)) with fresh by (rewrite Ew; destruct fresh; reflexivity).
+      rewrite plines_eqb_refl, p_clamp_spec, Hfr, Ew, Z.eqb_refl, orb_true_r.
+      rewrite (IH cs lines _ width fresh Hw Ho' Hf). reflexivity.
+    + cbn [pager_trace_ok p_offset p_width p_lines p_chars].
+      replace (fresh || negb (w =? width)) with true by (rewrite Ew; destruct fresh; reflexivity).
+      rewrite plines_eqb_refl, p_clamp_spec, layout_lines_ok, !Z.eqb_refl, orb_true_r by auto.
+      rewrite (IH cs (layout w cs) _ w true Hw Ho' (fun _ => eq_refl)). reflexivity.
+  - cbn [pager_trace_ok p_offset p_width p_lines p_chars].
+    rewrite Hfr, (IH cs lines (off + 1) width fresh Hw Ho' Hf). reflexivity.
+  - cbn [pager_trace_ok p_offset p_width p_lines p_chars].
+    rewrite Hfr, (IH cs lines (off - 1) width fresh Hw Ho' Hf). reflexivity.
+  - cbn [pager_trace_ok p_offset p_width p_lines p_chars].
+    rewrite Hfr, (IH cs lines k width fresh Hw Ho' Hf). reflexivity.
+  - cbn [pager_trace_ok p_offset p_width p_lines p_chars].
+    rewrite (IH cs' lines off width false Ho1 Ho'); [reflexivity|discriminate].
+  - cbn [pager_trace_ok p_offset p_width p_lines p_chars].
+    rewrite layout_lines_ok by auto.
+    rewrite (IH cs (layout width cs) off width true Hw Ho' (fun _ => eq_refl)). reflexivity.
+Qed.
+
+Theorem pager_trace_model_ok cs ops :
+  wf_chars cs -> Forall pop_wf ops ->
+  pager_case_ok (cs, p_run (p_init cs) ops) = true.
+Proof. intros Hw Ho. unfold pager_case_ok, p_init. apply pager_trace_model_ok'; auto. discriminate. Qed.
+
+(* ====================================================================================== *)
+(* widgets/scrollbar.Model                                                                 *)
+(* ====================================================================================== *)
+
+Lemma contiguous_from_seq bt : forall n s,
+  contiguous_from (bt + Z.of_nat s) (map (fun i => bt + Z.of_nat i) (seq s n)) = true.
+Proof.
+  induction n as [|n IH]; intros s; [reflexivity|]. simpl. rewrite Z.eqb_refl. simpl.
+  replace (bt + Z.of_nat s + 1) with (bt + Z.of_nat (S s)) by lia. apply IH.
+Qed.
+
+Lemma filter_all {A} (f : A -> bool) l : (forall x, In x l -> f x = true) -> filter f l = l.
+Proof.
+  induction l as [|a l IH]; intros H; [reflexivity|]. simpl. rewrite (H a (or_introl eq_refl)).
+  f_equal. apply IH. intros x Hx. apply H. right; exact Hx.
+Qed.
+
+Theorem sb_model_ok total view top w h :
+  sb_case_ok ((total, view, top, w, h), sb_rows total view top w h) = true.
+Proof.
+  unfold sb_case_ok.
+  destruct ((1 <=? view) && (view <? total) && (0 <=? top) && (top <=? total - view) && (1 <=? h) && (1 <=? w)) eqn:E; [|reflexivity].
+  assert (Hv : 1 <= view < total) by lia. assert (Ht : 0 <= top <= total - view) by lia.
+  assert (Hh : 1 <= h) by lia. assert (Hw : 1 <= w) by lia. clear E.
+  unfold sb_rows, sb_bar. destruct (total <? 1) eqn:E1; [lia|]. destruct (total <=? view) eqn:E2; [lia|].
+  rewrite !Z.quot_div_nonneg by nia.
+  set (bt := top * h / total). set (q := view * h / total).
+  assert (Hbt : bt * total <= top * h < (bt + 1) * total).
+  { unfold bt. pose proof (Z.mul_div_le (top * h) total ltac:(lia)).
+    pose proof (Z.mul_succ_div_gt (top * h) total ltac:(lia)). nia. }
+  assert (Hq : q * total <= view * h).
+  { unfold q. pose proof (Z.mul_div_le (view * h) total ltac:(lia)). nia. }
+  assert (Hq0 : 0 <= q) by (unfold q; apply Z.div_pos; nia).
+  assert (Hbt0 : 0 <= bt) by (unfold bt; apply Z.div_pos; nia).
+  set (bh := if q <? 1 then 1 else q).
+  assert (Hbh : 1 <= bh /\ bt + bh <= h).
+  { unfold bh. destruct (q <? 1) eqn:Eq; split; try lia; nia. }
+  rewrite filter_all.
+  2:{ intros x Hx. apply in_map_iff in Hx as (i & <- & Hi). apply in_seq in Hi. lia. }
+  destruct (Z.to_nat bh) as [|n] eqn:En; [lia|].
+  cbn [seq map]. replace (bt + Z.of_nat 0) with bt by lia.
+  pose proof (contiguous_from_seq bt (S n) 0) as Hc. cbn [seq map] in Hc.
+  replace (bt + Z.of_nat 0) with bt in Hc by lia. rewrite Hc. simpl andb.
+  assert (Hl : zlen (bt :: map (fun i => bt + Z.of_nat i) (seq 1 n)) = bh).
+  { unfold zlen. simpl length. rewrite map_length, seq_length. lia. }
+  rewrite Hl. lia.
+Qed.
+
+(* ---------------------------------------------------------------------------------- *)
+(* Dynamic: no operation sequence panics (any items, any state)                        *)
+(* ---------------------------------------------------------------------------------- *)
+
+Definition bounded_draw (op : dop) : Prop :=
+  match op with DDraw w h => w <> 65535 /\ h <> 65535 | _ => True end.
+
+Theorem dyn_run_total gap dc : forall ops hs st,
+  Forall bounded_draw ops ->
+  length (dyn_run gap dc hs st ops) = length ops /\
+  Forall (fun x : dop * dobs => fst (fst (snd x)) = 0) (dyn_run gap dc hs st ops).
+Proof.
+  induction ops as [|op ops IH]; intros hs st Ho; [split; [reflexivity|constructor]|].
+  pose proof (Forall_inv Ho) as Ho1. pose proof (Forall_inv_tail Ho) as Ho'.
+  cbn [dyn_run].
+  assert (Hok : exists hs' st' cs, dstep gap dc hs st op = Ok (hs', st', cs)).
+  { destruct op; simpl; eauto. simpl in Ho1. destruct Ho1 as [Hw1 Hh1].
+    destruct (draw_total gap dc hs w h st Hw1 Hh1) as (cs & st' & ->). eauto. }
+  destruct Hok as (hs' & st' & cs & ->). destruct (IH hs' st' Ho') as [I1 I2].
+  split; [simpl; now rewrite I1|constructor; [reflexivity|exact I2]].
+Qed.
+
+(* a Draw that finds a child covering row 0 leaves the scroll state anchored inside that child:
+   the precondition [ioff] of the visibility theorem *)
+Theorem draw_establishes_ioff gap dc hs W H st cs st' :
+  wf_items hs -> wf_state st -> 0 <= gap -> draw gap dc hs W H st = Ok (cs, st') ->
+  (exists c, In c cs /\ covers0 c = true) -> ioff hs st' = true.
+Proof.
+  intros Hw Hs Hg E (c & Hin & Hc).
+  destruct (draw_props _ _ _ _ _ _ _ _ Hw Hs E) as ((G1 & _ & _) & _ & _ & _ & _ & A & _).
+  specialize (A Hg). unfold anchor_ok in A. rewrite forallb_forall in A. specialize (A c Hin).
+  rewrite Hc in A. simpl in A. unfold heights_ok in G1. rewrite forallb_forall in G1. specialize (G1 c Hin).
+  unfold ioff. replace (d_top st') with (c_idx c) by lia.
+  destruct (builder hs (c_idx c)) as [h|]; simpl in G1; [|discriminate].
+  unfold covers0 in Hc. lia.
 Qed.
